@@ -100,6 +100,10 @@ type Case struct {
 	// Late (relay-end-to-end only): the receiving endpoints return flow-control credit only once the
 	// relay has used up the initial window.
 	Late bool `json:"late,omitempty"`
+	// Neighbour (relay-end-to-end only): while the request of the judged call is half sent the client
+	// opens a second gRPC stream on the connection whose grpc-encoding is this value (a custom codec
+	// such as zstd, or a known one as control). Only the judged call is judged.
+	Neighbour string `json:"neighbour,omitempty"`
 }
 
 // ctFor is the content-type announced in one direction.
